@@ -1,11 +1,11 @@
 package main
 
 import (
-	"golang.org/x/sys/unix"
 	gnutar "archive/tar"
 	"bytes"
 	"context"
 	"fmt"
+	"golang.org/x/sys/unix"
 	"io"
 	"math/rand"
 	"os"
